@@ -147,6 +147,10 @@ class ScalarGen:
     def compare(self, depth: int) -> str:
         rng = self.rng
         op = rng.choice(CMP)
+        if rng.random() < 0.12:
+            # an offset on the left and a constant on the right: moving the offset across is only valid without wrap-around
+            x = self.pick_signal()
+            return f"(({x} {rng.choice(['+', '-'])} {lit(rng.choice([1, 5, 1000, 2147483647, -7]))}) {op} {lit(small_const(rng))})"
         left = self.atom(depth - 1)
         right = self.operand(depth)
         return f"({left} {op} {right})"
@@ -154,9 +158,33 @@ class ScalarGen:
     def logic(self, depth: int) -> str:
         rng = self.rng
         op = rng.choice(["&&", "||", "and", "or"])
-        mk = lambda: self.compare(max(depth - 1, 1)) if rng.random() < 0.7 else self.atom(depth - 1)
+        def mk():
+            r = rng.random()
+            if r < 0.55:
+                return self.compare(max(depth - 1, 1))
+            if r < 0.8:
+                return self.nearbool(depth)
+            return self.atom(depth - 1)
         parts = [mk() for _ in range(rng.choice([2, 2, 3]))]
         return "(" + f" {op} ".join(parts) + ")"
+
+    def nearbool(self, depth: int) -> str:
+        """operands of && / || that look boolean but are not for every input (or are, in a non-obvious way):
+        the places where a 'both operands are 0/1' shortcut is tempting"""
+        rng = self.rng
+        x = self.atom(depth - 1)
+        k = rng.choice([0, 1, 2, 3, 4, 8])
+        if k == 0:
+            return f"({x} % {rng.choice([2, 2, 3, 4])})"
+        if k == 1:
+            return f"({x} AND {rng.choice([1, 1, 3])})"
+        if k == 2:
+            return f"({self.compare(1)} : {rng.choice([-1, 0, 1, 2])})"
+        if k == 3:
+            return f"({self.compare(1)} * {self.compare(1)})"
+        if k == 4:
+            return f"({x} >> {rng.choice([31, 30])})"
+        return f"(!{x})"
 
     def outspec(self, depth: int) -> str:
         rng = self.rng
@@ -285,6 +313,9 @@ class BundleGen:
         if r < 0.3:
             op = rng.choice(ARITH)
             k = str(rng.randint(0, 31)) if op in ("<<", ">>") else (str(rng.randint(0, 4)) if op == "**" else self.scalar_operand())
+            if op in ("/", "%") and rng.random() < 0.5:
+                # divisors for which a shift / mask "strength reduction" is tempting (wrong for negative members)
+                k = lit(rng.choice([2, 4, 8, 16, 1024, -2, 1, -1]))
             self.lines.append(f"Bundle {nm} = ({b} {op} {k});")
             self.bundles.append((nm, tys))
         elif r < 0.45:
@@ -486,8 +517,14 @@ def gen_entities(seed: int) -> str:
         elif r < 0.65 and chests:
             k = rng.randint(1, len(chests))
             cond = f'(items{k}["iron-plate"] {rng.choice(CMP)} {rng.randint(0, 200)})'
-        elif r < 0.8:
+        elif r < 0.75:
             cond = _stateless(rng, names, 1)
+        elif r < 0.88:
+            # a conditional value as the enable: positive only if the condition holds AND the value is positive
+            a = rng.choice(names)[0]
+            c0 = f"({a} {rng.choice(CMP)} {lit(rng.randint(-6, 12))})"
+            v = a if rng.random() < 0.6 else (rng.choice(names)[0] if rng.random() < 0.6 else lit(rng.randint(-2, 3)))
+            cond = f"({c0} : {v})"
         else:
             cond = f"({_condition(rng, names)} && {_condition(rng, names)})"
         lines.append(f"{nm}.enable = {cond};")
@@ -666,7 +703,7 @@ def gen_constexpr(seed: int):
 
     e, val = cexpr(rng.randint(1, 3))
     meta["python_value"] = val
-    pos = rng.choice(["int_decl", "literal_value", "operand", "condition", "func_arg", "loop_body", "signal_decl"])
+    pos = rng.choice(["int_decl", "literal_value", "operand", "condition", "func_arg", "loop_body", "signal_decl", "offset_compare"])
     meta["position"] = pos
     lines = ['Signal x = ("signal-X", 7);']
     if pos == "int_decl":
@@ -681,6 +718,9 @@ def gen_constexpr(seed: int):
         lines += ["func f(int a, Signal s) {", "    return s + a;", "}", f"Signal r = f({e}, x);"]
     elif pos == "loop_body":
         lines += ["for i in 0..2 {", f'    Entity l = place("small-lamp", i, 0);', f"    l.enable = x > (i + {e});", "}"]
+    elif pos == "offset_compare":
+        # constant offset on the left, constant on the right: equivalent to `x CMP (k - e)` only without wrap-around
+        lines += [f"Signal r = ((x {rng.choice(['+', '-'])} {e}) {rng.choice(['<', '<=', '>', '>=', '==', '!='])} {lit(const(rng, small=True))});"]
     else:
         lines += [f"Signal c = {e};", "Signal r = x + c;"]
     return "\n".join(lines) + "\n", meta
